@@ -30,6 +30,10 @@ CLAIMS["C06"] = ("symbolic column-term evaluation; complete decision-table extra
     "Decides: per stream the rows are exactly those of the stream, ts-sorted; gap = ts - shift(+1)(ts+dur); the idle category as a complete 4-row decision table equals {p->HOST_WAIT, !p&q->KERNEL_WAIT, !p&!q->OTHER} with strict comparisons; idle_time = per-category sum of gaps and ratio = idle_time/total; launch time = ts of the event whose id is the kernel's index_correlation via a left join against the whole trace frame with suffix agreement; device/category selection; enum values written = values mapped back to names; all 7 facade arguments bound to like-named parameters. Non-overlap within a stream is an input assumption.",
     "3/C06")
 
+CLAIMS["C05"] = ("symbolic column-term evaluation; slot checks of the bit-sweep template; aggregator provenance algebra on every path; decision-table extraction of the relabelling masks; call-site binding",
+    "Decides the bit-sweep template of the kernel-type table (per type the merged intervals of that type's device rows, markers +v/-v with distinct powers of two, time-sorted cumsum, next_time = shift(-1), rows kept iff running > 0, labels by u & bit tests for u > 0, sum of segment durations per label, percentage = sum/total*100) and, for the per-kernel table on every path with and without allow-list, the provenance rule: sum/max/min/mean/std of each reported row are aggregated directly from the kernels' dur grouped by the final label (own name or 'others'), the relabelling is the complete table others iff not kept and (position >= num_kernels or beyond the duration quantile) on the sum-descending frame with a fresh index, under the guard rows > num_kernels; type list and argument bindings. Structure, not numbers.",
+    "3/C05")
+
 REASON_WIP = "checker under construction in this session (see DESIGN.md section 3); not claimed until its check is committed"
 
 
